@@ -281,6 +281,22 @@ Theorem C20_external_flows_zero : forall cfg ds out,
 Proof. exact external_flows_zero_full. Qed.
 Print Assumptions C20_external_flows_zero.
 
+(* the same about the output: when the records before the stretch end with a processed period end (or
+   lie before the window, [boundary]), the days of l are in the window and no period ends, and p is a
+   period end, the command prints for p a return that is 0 or undefined *)
+Theorem C20_external_flows_zero_line : forall cfg ds out,
+  returns_fixed cfg ds = COk out ->
+  exists part days perfs,
+    map pf_date perfs = map d_date days /\ out = perf_loop part (end_dates part) (Some 1) perfs /\
+    forall pre l p rest, perfs = pre ++ l ++ p :: rest ->
+      boundary part (end_dates part) pre ->
+      Forall (fun x => partition_contains part (pf_date x) = true /\ mem (end_dates part) (pf_date x) = false) l ->
+      partition_contains part (pf_date p) = true -> mem (end_dates part) (pf_date p) = true ->
+      (forall x, In x days -> In (d_date x) (map pf_date (l ++ [p])) -> untargeted x) ->
+      exists r, In (pf_date p, r) out /\ is_or_undef r 0.
+Proof. exact external_flows_zero_line. Qed.
+Print Assumptions C20_external_flows_zero_line.
+
 (* the law of one period by itself: if on every processed day of the period the change in value
    is accounted for by what flowed in and out, the reported return is 0 or undefined *)
 Theorem C20_flows_explain_zero : forall part ends l p,
@@ -383,6 +399,9 @@ Example C20_w5_deposit_period :
   w5_perfs = join_perf (fst w5_vs) w5_fs /\ (exists pre rest, w5_perfs = pre ++ w5_l ++ w5_p :: rest) /\
   map pf_date (w5_l ++ [w5_p]) = [feb 10; feb 28] /\
   (forall x, In x w5_days -> In (d_date x) (map pf_date (w5_l ++ [w5_p])) -> untargeted x) /\
+  boundary w5_part (end_dates w5_part) (firstn 3 w5_perfs) /\
+  Forall (fun x => partition_contains w5_part (pf_date x) = true /\ mem (end_dates w5_part) (pf_date x) = false) w5_l /\
+  partition_contains w5_part (pf_date w5_p) = true /\ mem (end_dates w5_part) (pf_date w5_p) = true /\
   match w5_l with
   | [q] => p_v0 q == 1500 # 1 /\ p_inflow q == 500 # 1 /\ p_outflow q == 0 /\ p_v1 q == 2000 # 1
   | _ => False
@@ -392,7 +411,8 @@ Example C20_w5_deposit_period :
 Proof.
   destruct w5_split as [Hs Hd].
   split; [exact w5_runs|]. split; [reflexivity|]. split; [exists (firstn 3 w5_perfs), []; exact Hs|]. split; [exact Hd|].
-  split; [rewrite Hd; exact w5_february_untargeted|]. split; [exact w5_deposit|]. split; [exact w5_reported|exact w5_returns].
+  split; [rewrite Hd; exact w5_february_untargeted|]. split; [exact w5_boundary|].
+  destruct w5_stretch as [Hl [Hc Hm]]. split; [exact Hl|]. split; [exact Hc|]. split; [exact Hm|]. split; [exact w5_deposit|]. split; [exact w5_reported|exact w5_returns].
 Qed.
 
 (* W5, `weights`: the hypotheses of C20_weights_match_balance hold of the valued days split at 2023-02-10
